@@ -278,6 +278,60 @@ theorem store_inv {eD eC : Hash} {s : St} {h : Hash} {n : CNode} {leaf : Option 
       · exact Or.inl hd
       · exact Or.inr ⟨e3 r h1, hg.2 r (insert_has_mono h n h2)⟩
 
+/-- The runtime-checked counterpart of `store_inv`: instead of assuming what the
+    callers of `hasher.store` guarantee (`StoreOk`), it suffices that the driver's
+    `storeCheck` passed — which it verifies on every `ins`/`insl` of every run. -/
+theorem store_inv_checked {eD eC : Hash} {s : St} {h : Hash} {n : CNode} {leaf : Option (Hash × Hash)} {c' : Cache}
+    (hi : Inv s) (hs : store eD eC s.cache h n leaf = some c')
+    (hck : (s.cache.lookup h).isSome = true ∨ storeCheck s.disk c' h n = true) : Inv ⟨c', s.disk⟩ := by
+  have hg : Grows (insert s.cache h n) c' := by
+    unfold store at hs
+    cases leaf with
+    | none => simp at hs; subst hs; exact grows_refl _
+    | some rc => obtain ⟨root, code⟩ := rc; exact leafRefs_grows hs
+  cases hl : s.cache.lookup h with
+  | some m =>
+    rw [insert_old hl] at hg
+    exact ⟨hi.allRes, grows_cacheInv hg hi.cacheInv, grows_consistent hg hi.consistent⟩
+  | none =>
+    have hck' : storeCheck s.disk c' h n = true := by
+      rcases hck with h1 | h1
+      · simp [hl] at h1
+      · exact h1
+    unfold storeCheck at hck'
+    simp only [Bool.and_eq_true] at hck'
+    obtain ⟨hc1, hc2⟩ := hck'
+    have hc1' : ∀ dn, s.disk.lookup h = some dn → dn = n.toD := by
+      intro dn hd
+      simp only [hd, decide_eq_true_eq] at hc1
+      exact hc1
+    have hins : ∀ k, (insert s.cache h n).lookup k = if k = h then some n else s.cache.lookup k := by
+      intro k; rw [insert_new hl, lookup_cons_eq]
+    have hcons1 : Consistent (insert s.cache h n) s.disk := by
+      intro k m dn hk hd
+      rw [hins] at hk
+      by_cases hkh : k = h
+      · subst hkh; simp only [if_true, Option.some.injEq] at hk; subst hk; exact hc1' dn hd
+      · simp only [hkh, if_false] at hk; exact hi.consistent k m dn hk hd
+    refine ⟨hi.allRes, ?_, grows_consistent hg hcons1⟩
+    intro k n' hk r hr
+    obtain ⟨n1, hn1, e1, _, e3⟩ := hg.1 k n' hk
+    rw [hins] at hn1
+    by_cases hkh : k = h
+    · subst hkh
+      simp only [if_true, Option.some.injEq] at hn1
+      subst hn1
+      rw [e1] at hr
+      simp only [hk, List.all_eq_true, Bool.or_eq_true, Bool.and_eq_true] at hc2
+      rcases hc2 r hr with hd | ⟨h1, h2⟩
+      · exact Or.inl hd
+      · exact Or.inr ⟨by simpa using h2, h1⟩
+    · simp only [hkh, if_false] at hn1
+      rw [e1] at hr
+      rcases hi.cacheInv k n1 hn1 r hr with hd | ⟨h1, h2⟩
+      · exact Or.inl hd
+      · exact Or.inr ⟨e3 r h1, hg.2 r (insert_has_mono h n h2)⟩
+
 /-! ## reorder -/
 
 theorem lookup_map_cond (P : Hash → CNode → Bool) (g : CNode → CNode) (c : Cache) (k : Hash) :
@@ -608,5 +662,37 @@ theorem reach_inv {eD eC : Hash} {s : St} (h : Reach eD eC s) : Inv s := by
   induction h with
   | init => exact inv_empty
   | step op _ hok hs ih => exact step_inv ih hok hs
+
+
+/-! ## reachability with the driver's check in place of the assumption -/
+
+/-- a `store` step is accepted when the node was cached already (a no-op insert, the
+    leaf callback only adds references) or the driver's `storeCheck` passed -/
+def OpChecked (s s' : St) : Op → Prop
+  | .store h n _ => (s.cache.lookup h).isSome = true ∨ storeCheck s.disk s'.cache h n = true
+  | _ => True
+
+theorem step_inv_checked {eD eC : Hash} {s s' : St} {op : Op} (hi : Inv s) (hok : OpChecked s s' op)
+    (hs : step eD eC s op = some s') : Inv s' := by
+  cases op with
+  | store h n leaf =>
+    simp only [step, Option.map_eq_some_iff] at hs
+    obtain ⟨c', hc', rfl⟩ := hs
+    exact store_inv_checked hi hc' hok
+  | ref child parent => exact step_inv (op := .ref child parent) hi trivial hs
+  | reorder h ord => exact step_inv (op := .reorder h ord) hi trivial hs
+  | commit root failAt => exact step_inv (op := .commit root failAt) hi trivial hs
+  | die => exact step_inv (op := .die) hi trivial hs
+
+/-- the states a driver run passes through when every `ins`/`insl` was answered `ok` or `dup` -/
+inductive ReachChecked (eD eC : Hash) : St → Prop where
+  | init : ReachChecked eD eC St.empty
+  | step {s s' : St} (op : Op) : ReachChecked eD eC s → step eD eC s op = some s' → OpChecked s s' op →
+      ReachChecked eD eC s'
+
+theorem reachChecked_inv {eD eC : Hash} {s : St} (h : ReachChecked eD eC s) : Inv s := by
+  induction h with
+  | init => exact inv_empty
+  | step op _ hs hok ih => exact step_inv_checked ih hok hs
 
 end Rangers.Model.TrieDB
